@@ -533,11 +533,10 @@ impl<'m> MCTPSMBusContext<'m> {
                                         response_buf,
                                     )
                                     .unwrap();
-                            } else if payload[0] == MCTPSetEndpointIDOperations::ResetEID as u8 {
-                                unimplemented!()
-                            } else if payload[0]
-                                == MCTPSetEndpointIDOperations::SetDiscoveredFlag as u8
-                            {
+                            } else {
+                                // Reset EID (static EIDs aren't supported), Set
+                                // Discovered Flag and the reserved operation values
+                                // can't be carried out
                                 len = self
                                     .get_response()
                                     .set_endpoint_id(
@@ -548,8 +547,6 @@ impl<'m> MCTPSMBusContext<'m> {
                                         response_buf,
                                     )
                                     .unwrap();
-                            } else {
-                                unreachable!()
                             }
                         }
                         CommandCode::GetEndpointID => {
